@@ -4,6 +4,7 @@
 -/
 import Rbql.Proofs.ParseInvariance
 import Rbql.Model.Engine
+import Rbql.Proofs.ClauseOrder
 namespace Rbql
 
 /-! ### tier 1: string literals are cut out and put back verbatim -/
@@ -65,9 +66,24 @@ theorem C08_join_synonyms :
     joinKindOf .join = joinKindOf .innerJoin ∧ joinKindOf .leftJoin = joinKindOf .leftOuterJoin ∧
     joinKindOf .strictLeftJoin = some .strictLeft := ⟨rfl, rfl, rfl⟩
 
-/-! ### tier 3 (clause order after SELECT/UPDATE): NOT PROVED.
-The full statement would be: for every permutation σ of the clauses after the first and every abstract query whose clause texts
-contain no keyword pattern, `separateActions (render σ q) = separateActions (render id q)` up to the order of the action list.
-It is covered by the correspondence only (respelled queries with shuffled clauses against the model's result for the abstract query). -/
+/-! ### tier 3: clause order after SELECT/UPDATE -/
+
+/-- **clause order is irrelevant**: for a query `HEAD headBody KW₁ body₁ KW₂ body₂ …` whose bodies are quiet (no
+space-separated token starts, case-insensitively, with a reserved word) and which has at most one clause per statement
+group, ANY permutation of the clauses after SELECT (or UPDATE) parses to the same dictionary of actions — the same
+action per statement kind, the same WITH modifier — and to the same error if there is one. -/
+theorem C08_clause_order (head : Stmt) (hh : head = .select ∨ head = .update) (headBody : Str)
+    (hq : QuietBody headBody) (cl1 cl2 : List (Stmt × Str)) (hok : ClausesOk cl1) (hperm : cl1.Perm cl2) (s : Stmt) :
+    parseDict (renderQuery head headBody cl2) s = parseDict (renderQuery head headBody cl1) s :=
+  clause_order_irrelevant head hh headBody hq cl1 cl2 hok hperm s
+
+/-- … and the parse is what one expects: it succeeds, there is no WITH modifier, the head action comes first and every
+clause contributes an action that depends only on its own statement and body (`clauseAction`), wherever it stands -/
+theorem C08_clause_actions (head : Stmt) (hh : head = .select ∨ head = .update) (headBody : Str)
+    (hq : QuietBody headBody) (cls : List (Stmt × Str)) (hok : ClausesOk cls) :
+    ∃ hA : Action, hA.stmt = head ∧
+      separateActions (renderQuery head headBody cls) = .ok { withModifier := none, actions := hA :: cls.map clauseAction } := by
+  obtain ⟨hA, h1, _, h3⟩ := Setup.separate (⟨hh, hq, hok.1, hok.2⟩ : Setup head headBody cls)
+  exact ⟨hA, h1, h3⟩
 
 end Rbql
